@@ -20,7 +20,7 @@ EXPLANATION = (
     'lock region as the write; (c) status guards exist; (d) read-modify-write '
     'of generator counters is under a lock on every path from a worker entry '
     'point.  Necessary conditions for exactly-once; schedules are not explored.')
-FLOORS = {'C16.a': 6, 'C16.b': 2, 'C16.c': 1, 'C16.d': 1, 'C16.e': 2, 'C16.z': 2}
+FLOORS = {'C16.a': 6, 'C16.b': 2, 'C16.c': 1, 'C16.d': 1, 'C16.e': 2, 'C16.z': 2, 'C16.f': 1}
 FILES = ['pyglove/core/tuning/local_backend.py', 'pyglove/core/tuning/sample.py',
          'pyglove/core/tuning/protocols.py', 'pyglove/core/tuning/backend.py',
          'pyglove/core/geno/dna_generator.py', 'pyglove/ext/evolution/base.py']
@@ -445,6 +445,33 @@ def rule_e(ctx):
     raise AnalysisError(f'only {n} functions take a group id')
 
 
+def rule_f(ctx):
+  """The default worker group is the id of the thread that creates the
+  backend.  pg.sample therefore creates the backend lazily, in the iterating
+  thread: sample() itself is a generator and the backend creation sits in the
+  same generator as the loop that asks it for trials (a sampling loop built by
+  a coordinator thread and consumed by workers must not pin all of them to the
+  coordinator's group)."""
+  idx = ctx.index
+  f = idx.func('pyglove.core.tuning.sample.sample')
+  own = [n for n in A.walk_local(f.node)]
+  has_yield = any(isinstance(n, (ast.Yield, ast.YieldFrom)) for n in own)
+  def attr_calls(name):
+    return [c for c in A.calls_in(f.node) if isinstance(c.func, ast.Attribute) and c.func.attr == name]
+  creates = attr_calls('create')
+  nexts = attr_calls('next')
+  problems = []
+  if not creates:
+    problems.append('the backend is not created in sample()')
+  if not has_yield:
+    problems.append('sample() is not a generator: the backend (and the default worker group = creating thread) is fixed '
+                    'when sample() is called, not when the loop is iterated')
+  if not nexts:
+    problems.append('the trial loop is not in the generator that creates the backend')
+  ctx.ob('C16.f', f.fq, not problems,
+         'pg.sample creates the backend lazily in the thread that iterates the loop', f.loc, '; '.join(problems))
+
+
 def run(ctx):
   ctx.consult(*FILES)
   discover_locks(ctx.index)
@@ -454,6 +481,7 @@ def run(ctx):
   rule_c(ctx)
   rule_d(ctx)
   rule_e(ctx)
+  rule_f(ctx)
   S.optional_truthiness_obligations(ctx, 'C16.z', ['pyglove/core/tuning/sample.py', 'pyglove/core/tuning/backend.py', 'pyglove/core/tuning/local_backend.py', 'pyglove/core/tuning/protocols.py'], 'group 0 is a group, reward 0.0 is a reward')
   ctx.assume('setup-time methods (__init__, _on_bound, setup, recover) run before workers start')
   ctx.assume('atomicity by construction is necessary, not sufficient, for exactly-once')
